@@ -858,6 +858,8 @@ def _op9_eval(e, env):
         return e.value
     if isinstance(e, ast.Name):
         return env.get(e.id, _UNK)
+    if isinstance(e, ast.Tuple):
+        return tuple(_op9_eval(x, env) for x in e.elts)
     if isinstance(e, ast.Call) and isinstance(e.func, ast.Name) and e.func.id == 'len' and len(e.args) == 1 and not e.keywords:
         v = _op9_eval(e.args[0], env)
         return v.n if isinstance(v, _AbsList) else _UNK
@@ -905,7 +907,7 @@ def _op9_truth(e, env):
         return v.n > 0
     if isinstance(v, (int, bool)):
         return bool(v)
-    return _UNK
+    return _UNK           # tuples and unknown values: both branches are explored
 
 
 def _op9_paths(stmts, env, target, hits, fn):
@@ -931,9 +933,8 @@ def _op9_paths(stmts, env, target, hits, fn):
                 if isinstance(tg, ast.Name):
                     env[tg.id] = _op9_eval(s.value, env)
                 elif isinstance(tg, ast.Tuple) and all(isinstance(x, ast.Name) for x in tg.elts):
-                    if isinstance(s.value, ast.Tuple) and len(s.value.elts) == len(tg.elts):
-                        vals = [_op9_eval(v, env) for v in s.value.elts]
-                    else:
+                    vals = _op9_eval(s.value, env)          # a tuple display, also behind a conditional expression
+                    if not (isinstance(vals, tuple) and len(vals) == len(tg.elts)):
                         vals = [_UNK] * len(tg.elts)
                     for x, v in zip(tg.elts, vals):
                         env[x.id] = v
